@@ -70,3 +70,17 @@ package js_parser
 // general "every newSymbol" rule cannot see checks made in callers (27 of 60 sites undecided: not claimed).
 //@ checked label-name-representable C16: site=call newSymbol arg1=ast.SymbolLabel arg2 ; by=call checkForUnrepresentableIdentifier arg2 ; in=js_parser ; scenario=nonbmp_identifier
 //@ checked class-expr-name-representable C16: site=call newSymbol arg2 ; by=call checkForUnrepresentableIdentifier arg2 ; in=js_parser ; only=(*parser).parseClassExpr ; scenario=nonbmp_identifier
+
+// ----------------------------------------------------------------------------------------------
+// C04 / C02: "the output never references a binding whose declaration was removed". The linker finds the
+// parts that declare an exported symbol through TopLevelSymbolToParts, which the parser keys by the END of
+// each symbol's link chain (merged `var`/function declarations are linked, see toAST). An entry of the
+// export table must therefore name a chain end; otherwise an import of it depends on no part of the
+// exporting file and the declaration is tree-shaken away (or never linked in).
+//@ func (*parser).recordExport
+//@   arith int
+//@   prop C04 C02
+//@   opt scenario export_merged_var
+//@   requires p != nil
+//@   ensures exported-symbol-is-chain-end: !old(inDom(p.namedExports, alias)) ==>
+//@       inDom(p.namedExports, alias) && p.symbols[p.namedExports[alias].Ref.InnerIndex].Link == ast.InvalidRef
